@@ -54,6 +54,8 @@ class EngineC08(HistEngine):
         callers = [g.gen_caller() for _ in range(ch.randint(1, 4, "ncall"))]
         for _ in range(ch.randint(0, 2, "nfixed")):
             t = ch.choice(FIXED_CALLERS, "fixed")
+            if cfg == "A" and "mask" in t:
+                continue            # named like a local of fcirc_add: known finding F4, configuration B only
             callers.append({"text": t, "stmts": None, "outs": [], "convention": False, "uses": re.findall(r"\b(\w+)\(", t), "form": "fixed"})
         insts = [fmt0]
         ops = []
@@ -319,23 +321,16 @@ class EngineC08(HistEngine):
 
     @staticmethod
     def find_clobber(flat, scoped, source):
-        """Which caller-visible variable differs first, is it compiler generated, and who wrote it last."""
+        """Caller-visible variables that a callee wrote in the flat run: (kinds, names, writers)."""
         words = set(re.findall(r"[A-Za-z_]\w*", source))
-        for k in sorted(scoped["locals"]):
-            if k == "ret_val":
-                continue
-            if flat["locals"].get(k) != scoped["locals"][k]:
-                gen = bool(re.search(r"\d+$", k)) and k not in words
-                # every variable the callee scopes wrote in the scoped run and that the caller also owns
-                return ("temp" if gen else "named-local", k, flat["writer"].get(k, ""))
-        # no differing local survived: look for names written by both a callee scope and the top level
-        callee_written = {n.split(":", 1)[1] for n in scoped["all_locals"] if ":" in n}
-        both = sorted(callee_written & set(scoped["locals"]) - {"ret_val"})
-        if both:
-            k = both[0]
+        cand = sorted(n for n in flat["callee_writes"] if n in scoped["locals"] and n != "ret_val")
+        kinds = set()
+        for k in cand:
             gen = bool(re.search(r"\d+$", k)) and k not in words
-            return ("temp" if gen else "named-local", k, flat["writer"].get(k, ""))
-        return ("unknown", "", "")
+            kinds.add("temp" if gen else "named-local")
+        if not cand:
+            return ("unknown", "", "")
+        return ("+".join(sorted(kinds)), ",".join(cand), ",".join(flat["callee_writes"][k] for k in cand))
 
     def fixed_reference(self, text, a, b, st):
         rs, rt = a & 0xFFFFFFFF, b & 0xFFFFFFFF
